@@ -108,6 +108,7 @@ type c06Handler interface {
 type c06Inst struct {
 	h     c06Handler
 	sugg  func(Option) bool // projection of random Nak suggestions (IPv6CP only)
+	local *[8]byte          // IPv6CP: the local identifier the projection compares with
 	peer  func() string
 	nArgs int
 }
@@ -140,10 +141,10 @@ func c06Build(proto string, f []string, cb Callbacks) c06Inst {
 		}}
 	case "6":
 		v := NewIPv6CP(cb)
-		var id [8]byte
+		id := new([8]byte)
 		copy(id[:], c06Bytes(f[0]))
-		v.SetInterfaceID(id)
-		return c06Inst{h: v, nArgs: 1,
+		v.SetInterfaceID(*id)
+		return c06Inst{h: v, nArgs: 1, local: id,
 			sugg: func(o Option) bool {
 				return o.Type == IPv6CPOptInterfaceID && len(o.Data) == 8 && string(o.Data) != string(id[:])
 			},
@@ -161,6 +162,58 @@ func c06Direct(proto string, f []string) string {
 	for _, rq := range f[inst.nArgs:] {
 		ack, nak, rej := inst.h.ProcessConfReq(c06Opts(rq))
 		parts = append(parts, "A="+c06ShowOpts(ack, nil)+" N="+c06ShowOpts(nak, inst.sugg)+" R="+c06ShowOpts(rej, nil))
+	}
+	return strings.Join(parts, " | ") + " ; P=" + inst.peer()
+}
+
+// a history on ONE protocol object: requests interleaved with the subscriber's answers to our own request
+// and with configuration changes; after every non-request step the object's BuildConfReq is printed
+func c06Hist(proto string, f []string) string {
+	inst := c06Build(proto, f, Callbacks{})
+	var parts []string
+	for _, op := range f[inst.nArgs:] {
+		arg := op[1:]
+		switch op[0] {
+		case 'q':
+			ack, nak, rej := inst.h.ProcessConfReq(c06Opts(arg))
+			parts = append(parts, "A="+c06ShowOpts(ack, nil)+" N="+c06ShowOpts(nak, inst.sugg)+" R="+c06ShowOpts(rej, nil))
+			continue
+		case 'a':
+			inst.h.ProcessConfAck(c06Opts(arg))
+		case 'n':
+			inst.h.ProcessConfNak(c06Opts(arg))
+		case 'j':
+			inst.h.ProcessConfRej(c06Opts(arg))
+		case 'P':
+			inst.h.(*IPCP).SetPeerAddress(c06IP(arg))
+		case 'L':
+			inst.h.(*IPCP).SetAddress(c06IP(arg))
+		case 'D':
+			d := strings.Split(arg, "/")
+			inst.h.(*IPCP).SetDNS(c06IP(d[0]), c06IP(d[1]))
+		case 'M':
+			m, _ := strconv.ParseUint(arg, 10, 32)
+			inst.h.(*LCP).SetMagic(uint32(m))
+		case 'U':
+			m, _ := strconv.ParseUint(arg, 10, 16)
+			inst.h.(*LCP).SetMRU(uint16(m))
+		case 'T':
+			d := strings.Split(arg, "/")
+			pr, _ := strconv.ParseUint(d[0], 10, 16)
+			al, _ := strconv.ParseUint(d[1], 10, 8)
+			inst.h.(*LCP).SetAuthProto(uint16(pr), uint8(al))
+		case 'I':
+			var id [8]byte
+			copy(id[:], c06Bytes(arg))
+			inst.h.(*IPv6CP).SetInterfaceID(id)
+			*inst.local = id
+		default:
+			return "badop"
+		}
+		if proto == "6" {
+			*inst.local = inst.h.(*IPv6CP).LocalConfig().InterfaceID
+		}
+		parts = append(parts, "B="+c06ShowOpts(inst.h.BuildConfReq(), nil))
 	}
 	return strings.Join(parts, " | ") + " ; P=" + inst.peer()
 }
@@ -242,6 +295,12 @@ func c06Case(line string) (out string) {
 		return c06Direct("l", f[1:])
 	case "v6":
 		return c06Direct("6", f[1:])
+	case "hi":
+		return c06Hist("i", f[1:])
+	case "hl":
+		return c06Hist("l", f[1:])
+	case "h6":
+		return c06Hist("6", f[1:])
 	case "fsm":
 		return c06Fsm(f[1:])
 	}
